@@ -223,16 +223,16 @@ func node(t *rapid.T, o Opts, depth int) (string, bool) {
 		wRec = 0
 	}
 	switch pick(t, "node",
-		wLeaf,                      // 0 literal rune
-		6,                          // 1 class
-		3,                          // 2 literal string
-		wRec,                       // 3 quantified
-		wRec,                       // 4 concat
-		wRec*3/4,                   // 5 alternation
-		b2i(o.Captures, wRec/2+1),  // 6 capture group
-		wRec/4,                     // 7 non-capturing group
-		b2i(o.Anchors, 2),          // 8 anchor
-		b2i(o.WordB && !o.POSIX, 2), // 9 word boundary
+		wLeaf,                            // 0 literal rune
+		6,                                // 1 class
+		3,                                // 2 literal string
+		wRec,                             // 3 quantified
+		wRec,                             // 4 concat
+		wRec*3/4,                         // 5 alternation
+		b2i(o.Captures, wRec/2+1),        // 6 capture group
+		wRec/4,                           // 7 non-capturing group
+		b2i(o.Anchors, 2),                // 8 anchor
+		b2i(o.WordB && !o.POSIX, 2),      // 9 word boundary
 		b2i(o.Flags && !o.POSIX, wRec/4), // 10 flag group
 	) {
 	case 0:
